@@ -23,8 +23,8 @@ RULE = ("carrier-mode models built with onnx.helper (opset 18..25 round-robin; e
         "model's ir_version, ~11 initializers per model rotating through every onnx_ir.DataType legal for the ir_version "
         "with NaN-payload / -0.0 / subnormal / extreme bit patterns, zero-size and 0-d shapes, raw / typed / external storage; "
         "APIs optimize, rewrite (default, custom, empty), fold_constants, remove_unused_nodes, remove_unused_functions, "
-        "convert_version, replace_functions(_inplace), inline, each through the ModelProto and the ir.Model entry; thorough adds "
-        "the .onnx files of onnx/backend/test/data. Non-trivial = model passing onnx.checker on which N(M) exists; distinct = "
+        "convert_version, replace_functions(_inplace), inline, each through the ModelProto and the ir.Model entry; plus the .onnx "
+        "files of onnx/backend/test/data (quick: all simple/light/pytorch-* models and 1/12 of the node tests; thorough: all). Non-trivial = model passing onnx.checker on which N(M) exists; distinct = "
         "model parameter digest / corpus path.")
 ASSUMPTIONS = [
     "validity = onnx.checker.check_model (full_check for generated models); models are not executed (the property compares protos)",
@@ -39,7 +39,7 @@ ASSUMPTIONS = [
 ANCHORS = [
     "onnxscript.optimizer:optimize", "onnxscript.optimizer:fold_constants", "onnxscript.optimizer:remove_unused_nodes",
     "onnxscript.optimizer:remove_unused_functions", "onnxscript.rewriter:rewrite", "onnxscript.version_converter:convert_version",
-    "onnxscript.utils.replace:replace_functions", "onnxscript.utils.replace:replace_functions_inplace",
+    "onnxscript.utils.replace:replace_functions", "onnxscript.utils.replace:replace_functions_inplace", "onnxscript.optimizer:inline",
 ]
 TIMEOUT = 900.0
 
@@ -65,7 +65,7 @@ def thresholds(tier):
         return {"models": 16, "api_pairs_compared": 110, "inclusion_checked": 16, "idempotence_checked": 16,
                 "initializer_bits_checked": 1300, "untouched_nodes_checked": 2500, "metadata_entries_checked": 3800,
                 "value_infos_checked": 2200, "functions_checked": 100, "inplace_checked": 240, "identity_checked": 16,
-                "external_tensors": 30, "api_modified_model": 220, "distinct_nontrivial": 16,
+                "external_tensors": 30, "api_modified_model": 220, "distinct_nontrivial": 16, "corpus_models": 50,
                 "anchor:onnxscript.optimizer:optimize": 30, "anchor:onnxscript.optimizer:fold_constants": 30,
                 "anchor:onnxscript.optimizer:remove_unused_nodes": 30, "anchor:onnxscript.optimizer:remove_unused_functions": 30,
                 "anchor:onnxscript.rewriter:rewrite": 90, "anchor:onnxscript.version_converter:convert_version": 25,
@@ -73,7 +73,7 @@ def thresholds(tier):
     return {"models": 900, "api_pairs_compared": 6000, "inclusion_checked": 900, "idempotence_checked": 900,
             "initializer_bits_checked": 50000, "untouched_nodes_checked": 90000, "metadata_entries_checked": 140000,
             "value_infos_checked": 80000, "functions_checked": 3500, "inplace_checked": 12000, "identity_checked": 900,
-            "external_tensors": 1200, "api_modified_model": 8000, "corpus_models": 300, "distinct_nontrivial": 900,
+            "external_tensors": 1100, "api_modified_model": 8000, "corpus_models": 300, "distinct_nontrivial": 900,
             "anchor:onnxscript.optimizer:optimize": 1500, "anchor:onnxscript.rewriter:rewrite": 4000,
             "anchor:onnxscript.version_converter:convert_version": 1000, "anchor:onnxscript.utils.replace:replace_functions": 150}
 
@@ -93,10 +93,13 @@ def cases(tier, seed):
         n, chunk = 3000, 25
     for i in range(0, n, chunk):
         specs.append({"kind": "gen", "seed": seed, "idxs": list(range(i, min(n, i + chunk)))})
-    if tier != "quick":
-        files = _corpus_files()
-        for i in range(0, len(files), 40):
-            specs.append({"kind": "corpus", "files": files[i:i + 40]})
+    files = _corpus_files()
+    if tier == "quick":
+        # every non-node model (simple / light / pytorch-*) + a seed-rotated 1/12 of the node tests
+        node = [f for f in files if os.sep + "node" + os.sep in f]
+        files = [f for f in files if os.sep + "node" + os.sep not in f] + node[seed % 12::12]
+    for i in range(0, len(files), 30 if tier == "quick" else 40):
+        specs.append({"kind": "corpus", "files": files[i:i + (30 if tier == "quick" else 40)]})
     return specs
 
 
@@ -245,6 +248,7 @@ def check_model(mb: bytes, aside, label, hit, v, generated=True):
         if not res:
             continue
         rp, ri = res.get("proto"), res.get("ir")
+        pv_fired = False
         # (i) the two entries agree
         if rp is not None and ri is not None:
             if ("raised" in rp) != ("raised" in ri):
@@ -255,6 +259,7 @@ def check_model(mb: bytes, aside, label, hit, v, generated=True):
                 if ser(rp["R"]) != ser(ri["R"]):
                     evs = [e for e in D.diff(ri["R"], rp["R"]) if e.kind != "encoding"]
                     paths = sorted({_carrier(e) for e in evs}) or ["<bytes_only>"]
+                    pv_fired = True
                     for pth in paths:
                         ex = next((e for e in evs if _carrier(e) == pth), None)
                         v(f"api={api};entry=proto;kind=proto_vs_ir;path={pth}", f"{label}: {api}: result of the ModelProto entry differs "
@@ -293,7 +298,8 @@ def check_model(mb: bytes, aside, label, hit, v, generated=True):
                       f"(same object: {r['same_obj']}, argument changed: {r['arg_changed']})", {})
                 if mode == "inplace":
                     want = ri["R"] if ri is not None and "raised" not in ri else None
-                    if not r["arg_changed"] and want is not None and _really_differs(want, r["arg_after"]):
+                    # (a proto left untouched is also a proto-vs-ir difference: report the more specific key once)
+                    if not pv_fired and not r["arg_changed"] and want is not None and _really_differs(want, r["arg_after"]):
                         v(f"api={api};entry=proto;kind=inplace_not_mutated", f"{label}: {api}(ModelProto) documents in-place operation "
                           f"but left the given proto untouched while the transformation changes the model", {})
             else:
